@@ -61,7 +61,40 @@ def run_one(schema: dict, rng, exercise: int) -> dict:
             rg = c17_run.real_globals(rec)
             reads += [("*", a) for r, a in c17_run.holder_attr_reads(rec) if r not in rg]
         sets += [("*", a) for r, a in c17_run.holder_attr_sets(rec)]
+    # rendering: independent reading of every field annotation (Render.rty) + what the real type_name says + whether the
+    # generated error path of a required field contains it
+    render_cases = []
+    contain = {"checked": 0, "missing": []}
+    if d and sr.build_error is None:
+        import dataclasses
+        from harness import c17_render
+        from mashumaro.core.meta.helpers import type_name
+        alltext = "\n".join(rec["code"] for rec in sr.programs)
+        seen_rc = set()
+        for c in list(dict.fromkeys(list(d.get("ROOTS", [])) + [c for c in d.get("CLASSES", []) if isinstance(c, type)])):
+            for fn, t in c17_render.field_types(c):
+                term = c17_render.to_rty(t)
+                if term is None:
+                    continue
+                try:
+                    exp = type_name(t)
+                except Exception:
+                    continue
+                if (term, exp) not in seen_rc and len(render_cases) < 60:
+                    seen_rc.add((term, exp))
+                    render_cases.append([term, exp])
+                fld = next((f for f in dataclasses.fields(c) if f.name == fn), None)
+                if (c in d.get("ROOTS", []) and fld is not None and fld.default is dataclasses.MISSING
+                        and fld.default_factory is dataclasses.MISSING and fld.init):
+                    # the from_dict programs of this very class (they carry its qualified name in the non-dict message)
+                    own = [rec["code"] for rec in sr.programs
+                           if f"Argument for {c.__module__}.{c.__qualname__}.__mashumaro_from_" in rec["code"] and f"MissingField('{fn}'," in rec["code"]]
+                    for code in own:
+                        contain["checked"] += 1
+                        if f"MissingField('{fn}',{exp},cls)" not in code and f"MissingField('{fn}',{c17_run.clean(exp)},cls)" not in code:
+                            contain["missing"].append(f"{c.__name__}.{fn}: {exp}")
     out = {"idx": schema["idx"], "module": schema["module"], "tags": schema["tags"], "defloc": schema["defloc"],
+           "render_cases": render_cases, "render_contain": contain,
            "build_error": (type(sr.build_error).__name__ + ": " + str(sr.build_error)[:200]) if sr.build_error else None,
            "findings": fs, "programs": progs, "calls": sr.calls, "errors_seen": sr.errors_seen, "info": sr.info,
            "attr_reads": sorted(set(reads)), "attr_sets": sorted(set(sets)),
